@@ -235,6 +235,21 @@ def check_histories(t, m, names, ctx):
                 t.violation("C13: exception of the user's nodefunc was swallowed", dict(ctx, engine="E2", module=MOD, history="aborted-export",
                             names=names, observed=lines, start=0, stop=[], filtered_out=[], maxlevel=None))
             break
+    # a full export, an iteration started and abandoned after k lines (every k), another full export: same lines
+    e = MermaidExporter(nodes[0])
+    first = list(e)
+    for k in range(1, len(first) + 1):
+        it = iter(e)
+        for _ in range(k):
+            next(it)
+        del it
+        again = list(e)
+        t.c["history_runs"] += 1
+        if again != first:
+            t.violation("C13: export after an iteration of the same exporter that was abandoned after %d lines differs from the export before" % k,
+                        dict(ctx, engine="E2", module=MOD, history="abandoned-iteration-%d" % k, names=names, first=first, observed=again,
+                             start=0, stop=[], filtered_out=[], maxlevel=None))
+            break
     e = MermaidExporter(nodes[0])
     seq = list(e)
     # interleaved iterations
@@ -362,7 +377,7 @@ def run(tier):
     jobs = [(MOD, "job", {"items": [it], "extras": True}) for it in items[::-1]]
     if tier == "thorough":
         jobs += [(MOD, "job", {"items": [(s, k % 9)], "extras": False, "maxk": 2}) for k, s in enumerate(tree.plane_trees(nmax + 1))]
-    core.run_pool(jobs + [("mc.capacity", "job", {"pid": "C13"}), ("mc.positional", "job", {"pid": "C13"})], 0, into=t)
+    core.run_pool(jobs + [("mc.capacity", "job", {"pid": "C13"}), ("mc.positional", "job", {"pid": "C13"}), ("mc.numbers", "job", {"pid": "C13"})], 0, into=t)
     core.run_pool([(MOD, "job", {"items": c, "extras": False}) for c in core.chunks([(s, 1) for s in tree.shapes_upto(3)], core.NPROC)], 1, into=t)
     cov = {
         "states": t.c["states"], "transitions": t.c["evaluations"], "traces_validated_against_impl": t.c["evaluations"],
@@ -375,5 +390,5 @@ def run(tier):
         "bounds": {"max_nodes": nmax, "inputs": len(items)},
     }
     return {"tally": t, "coverage": cov,
-            "guards": ("positional_calls", "capacity_checks", "nontrivial", "custom_function_exports", "history_runs", "stopped_child_of_declared_parent"),
+            "guards": ("unusual_number_calls", "positional_calls", "capacity_checks", "nontrivial", "custom_function_exports", "history_runs", "stopped_child_of_declared_parent"),
             "assumptions": ["bounded sizes and name alphabet", "edge order is not fixed by the statement: edges are compared as a multiset"]}
